@@ -36,16 +36,30 @@ func (s *PackScanner) loadIdxFile(idx billy.File) error {
 		return fmt.Errorf("malformed idx file: %w", err)
 	}
 
+	count := int(binary.BigEndian.Uint32(mmap[idxHeaderSize+idxFanoutSize-4:]))
+	namesStart := idxHeaderSize + idxFanoutSize
+	crcStart := namesStart + (count * s.hashSize)
+	off32Start := crcStart + (count * idxCrcSize)
+	off64Start := off32Start + (count * off32Size)
+	trailerStart := len(mmap) - 2*s.hashSize
+
+	// The object count is read from the file: the tables it implies must fit
+	// between the fanout and the trailer, as canonical Git's load_idx checks.
+	if off64Start > trailerStart {
+		_ = cleanup()
+		return fmt.Errorf("malformed idx file: object count %d is inconsistent with file size %d", count, len(mmap))
+	}
+
 	s.idxCleanup = cleanup
 	s.idxMmap = mmap
 
-	s.count = int(binary.BigEndian.Uint32(s.idxMmap[idxHeaderSize+idxFanoutSize-4:]))
+	s.count = count
 	s.fanoutStart = idxHeaderSize
-	s.namesStart = s.fanoutStart + idxFanoutSize
-	s.crcStart = s.namesStart + (s.count * s.hashSize)
-	s.off32Start = s.crcStart + (s.count * idxCrcSize)
-	s.off64Start = s.off32Start + (s.count * off32Size)
-	s.trailerStart = len(s.idxMmap) - 2*s.hashSize
+	s.namesStart = namesStart
+	s.crcStart = crcStart
+	s.off32Start = off32Start
+	s.off64Start = off64Start
+	s.trailerStart = trailerStart
 
 	return nil
 }
